@@ -7,7 +7,18 @@ tracked key, every CFG edge equates the out-state of its source with the in-stat
 fixpoint iteration is needed.  A system that forces a non-zero form over {X, B} to vanish is inconsistent:
 some statement combines quantities of different physical dimension (wrong operand in an update, quotient of
 the wrong inner products, ...).  Any correct algorithm is consistent, so refactorings cannot fire.
+
+Configuration sensitivity: a test that only involves configuration fields of *this (never written by the function
+or the own helpers it calls), enumerators and literals is a *configuration atom* (canonical text of checks/c07.py
+`formula`, e.g. eq(_precon_variant,left)).  The analysis runs under an assumption {atom: truth}; every use of such
+a test - if / ?: / && / || / switch terminators of the CFG, conditional expressions selecting an operand, const bool
+locals holding the test (copy propagation), bool parameters of inlined helpers, parameterless const predicates of
+the own class - is decided from the assumption, so one run sees exactly one configuration.  Atoms met without an
+assumption are collected in `free_atoms` (the caller enumerates them).  Tests that may depend on the configuration
+but cannot be decided (re-assigned bool locals, unknown own predicates) are collected in `opaque`: with those a
+conflict may stem from merging two configurations and must not be reported as a violation.
 """
+import re
 from fractions import Fraction
 
 from featlib import render, walk, is_call
@@ -85,6 +96,57 @@ class System:
         return True
 
 
+DATA_PREDICATES = ("is_converged", "is_diverged", "isfinite", "isnan", "status_success", "_plot_iter", "_progress", "empty", "get_plot", "_plot_summary")
+
+
+class CfgLocals:
+    """Locals view that also resolves `c ? a : b` to the selected operand when c is decided by the assumption"""
+
+    def __init__(self, base, df):
+        self.base, self.df = base, df
+        self.fn, self.var, self.writes = base.fn, base.var, base.writes
+
+    def resolve(self, e, depth=0):
+        for _ in range(20):
+            e = self.base.resolve(e)
+            if isinstance(e, dict) and e.get("k") == "Cond":
+                t = self.df.cfg_truth(e["c"])
+                if t is None:
+                    break
+                e = e["then"] if t else e["else"]
+            else:
+                break
+        return e
+
+
+def consistent_assume(assume, enums=None):
+    """is the assumed configuration possible?  True / False / None (an enum field equal to none of the tested enumerators,
+    and the enumerator list of its type is not known).  enums: {field: set of all enumerator names of its type or None}"""
+    byfield = {}
+    for a, v in assume.items():
+        m = re.match(r"^eq\(([^(),]+),([^(),]+)\)$", a)
+        if not m:
+            continue
+        x, y = m.group(1), m.group(2)
+        if y.startswith("_") and not x.startswith("_"):
+            x, y = y, x
+        if not x.startswith("_") or y.startswith("_"):
+            continue
+        byfield.setdefault(x, {})[y] = v
+    res = True
+    for f, vals in byfield.items():
+        pos = [y for y, v in vals.items() if v]
+        if len(pos) > 1:
+            return False
+        if f in (enums or {}) and not pos:
+            allv = enums[f]
+            if allv is None:
+                res = None
+            elif not (set(allv) - set(vals)):
+                return False
+    return res
+
+
 def _strip_targs(s):
     out, depth = [], 0
     for ch in s:
@@ -104,9 +166,18 @@ class DimFlow:
 
     def __init__(self, fn, lo, helpers, assume=None, skip=()):
         self.fn = fn
-        self.lo = lo
+        self.base_lo = lo.base if isinstance(lo, CfgLocals) else lo
+        self.lo = CfgLocals(self.base_lo, self)
         self.h = helpers
-        self.assume = assume or {}        # render(cond leaf text contains key) -> bool : CFG specialisation
+        self.assume = assume or {}        # configuration atom (canonical text) -> truth : one configuration per run
+        self.free_atoms = set()           # configuration atoms met without an assumption
+        self.opaque = []                  # tests that may depend on the configuration but could not be decided
+        self.ptruth = {}                  # decl id of a bool parameter -> truth bound at the inlining call site
+        self._truth_cache = {}
+        self.enum_fields = {}             # configuration field compared with enumerators -> its enum type
+        self.flags = set()                # decl ids of re-assigned bool locals
+        self.cur_flags = {}               # their known values at the point under evaluation
+        self.flag_in, self.flag_out = {}, {}
         self.sys = System()
         self.const = {}                   # per-function constants (fields, preconditioner scalings)
         self.unmodelled = []
@@ -134,9 +205,192 @@ class DimFlow:
             why, h = self.sys.conflicts[-1]
             self.stmt_conflicts.append((self.cur_stmt, what, h))
 
+    # ---- configuration tests
+    def written_fields(self):
+        """names of the fields of *this assigned / incremented by this function or an own helper it may inline"""
+        w = self.h.get("_written")
+        if w is None:
+            w = set(self.h.get("written_extra") or ())
+            methods = self.h.get("methods") or {}
+            root = self.h.get("root_fn") or self.fn
+            fns, todo = [], [root]
+            while todo:                      # the analysed function and the own helpers it (transitively) calls
+                f = todo.pop()
+                if any(f is g for g in fns):
+                    continue
+                fns.append(f)
+                for c in f.calls():
+                    if c.get("k") == "MCall" and (c.get("obj") is None or c["obj"].get("k") == "This") and self.h["cname"](c) in methods:
+                        todo.append(methods[self.h["cname"](c)])
+            for f in fns:
+                for n in f.nodes():
+                    t = None
+                    if n.get("k") == "Assign":
+                        t = self.h["strip"](n["lhs"])
+                    elif n.get("k") == "Un" and n.get("op") in ("++", "--"):
+                        t = self.h["strip"](n["e"])
+                    elif n.get("k") == "OpCall" and n.get("op") == "=" and n.get("a"):
+                        t = self.h["strip"](n["a"][0])
+                    if isinstance(t, dict) and t.get("k") == "Member" and t.get("field"):
+                        w.add(t["n"])
+            self.h["_written"] = w
+        return w
+
+    def is_cfg_term(self, e):
+        e = self.base_lo.resolve(e)
+        k = e.get("k")
+        if k in ("Int", "Float", "Bool", "Char"):
+            return True
+        if k == "Ref" and e.get("dk") == "enum":
+            return True
+        if k == "Member" and e.get("field") and (e.get("b") is None or e["b"].get("k") == "This"):
+            t = _strip_targs(self.fn.ntype(e) or "")
+            if any(x in t for x in ("Vector", "Matrix", "Filter", "shared_ptr", "std::", "*")):
+                return False
+            return e["n"] not in self.written_fields()
+        if k == "Un" and e.get("op") in ("-", "+"):
+            return self.is_cfg_term(e["e"])
+        return False
+
+    def cfg_truth(self, e):
+        """truth of a test under the assumption: True / False / None (not a decided configuration test)"""
+        return self._cfg_truth(e, 0)
+
+    def _cfg_truth(self, e, depth):
+        if depth > 12 or not isinstance(e, dict):
+            return None
+        e = self.base_lo.resolve(e)
+        k = e.get("k")
+        if k == "Bool":
+            return bool(e["v"])
+        if k == "Ref" and e.get("dk") == "param" and e.get("d") in self.ptruth:
+            return self.ptruth[e["d"]]
+        if k == "Ref" and e.get("dk") == "local" and e.get("d") in self.flags:
+            return self.cur_flags.get(e["d"])          # re-assigned bool local: constant propagation along the assumed configuration
+        if k == "Un" and e.get("op") == "!":
+            t = self._cfg_truth(e["e"], depth + 1)
+            return None if t is None else not t
+        if k == "Bin" and e.get("op") in ("&&", "||"):
+            a, b = self._cfg_truth(e["lhs"], depth + 1), self._cfg_truth(e["rhs"], depth + 1)
+            if e["op"] == "&&":
+                return False if (a is False or b is False) else (True if (a and b) else None)
+            return True if (a or b) else (False if (a is False and b is False) else None)
+        if k == "Cond":
+            c = self._cfg_truth(e["c"], depth + 1)
+            if c is None:
+                a, b = self._cfg_truth(e["then"], depth + 1), self._cfg_truth(e["else"], depth + 1)
+                return a if a == b else None
+            return self._cfg_truth(e["then"] if c else e["else"], depth + 1)
+        atom = None
+        if k == "Bin" and e.get("op") in ("==", "!=", "<", "<=", ">", ">=") and self.is_cfg_term(e["lhs"]) and self.is_cfg_term(e["rhs"]):
+            atom = self.h["formula"](self.base_lo, e)
+            l, r = self.base_lo.resolve(e["lhs"]), self.base_lo.resolve(e["rhs"])
+            for x, y in ((l, r), (r, l)):
+                if x.get("k") == "Member" and y.get("k") == "Ref" and y.get("dk") == "enum":
+                    self.enum_fields[x["n"]] = (self.fn.ntype(x) or "").replace("const ", "").strip()
+        elif k == "Member" and self.is_cfg_term(e) and (self.fn.ntype(e) or "").replace("const ", "").strip() == "bool":
+            atom = self.h["formula"](self.base_lo, e)
+        elif k == "MCall" and (e.get("obj") is None or e["obj"].get("k") == "This") and not e.get("a") and e.get("cconst"):
+            # a parameterless const predicate of the own class: `bool _left() const { return <configuration test>; }`
+            callee = (self.h.get("methods") or {}).get(self.h["cname"](e))
+            if callee is not None and callee is not self.fn and self.h.get("Paths") is not None and callee.cfg is not None:
+                ps = self.h["Paths"](callee, bool_result=True)
+                if ps.problems or not ps.paths:
+                    return None
+                vals = set()
+                for pth in ps.paths:
+                    feas = True
+                    for f, pol in pth["cons"]:
+                        t = self.f_truth(f)
+                        if t is None:
+                            return None
+                        if t != pol:
+                            feas = False
+                            break
+                    if feas:
+                        vals.add(self.f_truth(pth["out"]) if pth["out"] is not None else None)
+                return vals.pop() if len(vals) == 1 else None
+            return None
+        if atom is None:
+            return None
+        neg = False
+        while atom[0] == "not":
+            atom, neg = atom[1], not neg
+        if atom[0] == "const":
+            return atom[1] != neg
+        if atom[0] != "atom":
+            return None
+        if atom[1] in self.assume:
+            return self.assume[atom[1]] != neg
+        self.free_atoms.add(atom[1])
+        return None
+
+    def f_truth(self, f):
+        """three-valued truth of a formula tree of checks/c07.py under the assumption; atoms are classified by their text"""
+        if f[0] == "const":
+            return f[1]
+        if f[0] == "not":
+            t = self.f_truth(f[1])
+            return None if t is None else not t
+        if f[0] in ("and", "or"):
+            a, b = self.f_truth(f[1]), self.f_truth(f[2])
+            if f[0] == "and":
+                return False if (a is False or b is False) else (True if (a and b) else None)
+            return True if (a or b) else (False if (a is False and b is False) else None)
+        if f[0] != "atom":
+            return None
+        a = f[1]
+        if a in self.assume:
+            return self.assume[a]
+        m = re.match(r"^(?:(eq|le)\(([\w.]+),([\w.]+)\)|(_\w+))$", a)
+        if m:
+            toks = [x for x in (m.group(2), m.group(3), m.group(4)) if x]
+            fields = [x for x in toks if x.startswith("_")]
+            if fields and all(x not in self.written_fields() for x in fields):
+                self.free_atoms.add(a)
+        return None
+
+    def note_opaque(self, c):
+        """record leaves of an undecided test that may depend on the configuration (not a test of computed data)"""
+        strip, cname = self.h["strip"], self.h["cname"]
+        todo = [c]
+        while todo:
+            x = self.base_lo.resolve(todo.pop())
+            k = x.get("k")
+            if k == "Un" and x.get("op") == "!":
+                todo.append(x["e"])
+            elif k == "Bin" and x.get("op") in ("&&", "||"):
+                todo += [x["lhs"], x["rhs"]]
+            elif self.cfg_truth(x) is not None:
+                continue
+            else:
+                ty = (self.fn.ntype(x) or "").replace("const ", "").strip()
+                what = None
+                if k == "Ref" and x.get("dk") in ("local", "param") and ty == "bool":
+                    what = "bool %s '%s' (%s)" % (x["dk"], x.get("n"), "re-assigned" if self.base_lo.writes.get(x.get("d"), 0) else "value not known here")
+                elif k == "Member" and x.get("field") and ty == "bool" and not self.is_cfg_term(x):
+                    what = "bool member %s that this function also writes" % x.get("n")
+                elif k == "MCall" and (x.get("obj") is None or x["obj"].get("k") == "This") and ty == "bool" \
+                        and cname(x) not in DATA_PREDICATES and not cname(x).startswith("_apply_precond") and not cname(x).startswith("_precond"):
+                    what = "own predicate %s()" % cname(x)
+                if what and what not in self.opaque:
+                    self.opaque.append(what)
+
     # ---- expression dimensions (scalars and vector reads)
     def key_of(self, e):
         return self.h["objkey"](self.lo, e)
+
+    def poly_literal(self, e):
+        """the literal 0 or Math::eps()/huge(), possibly through casts / single-argument constructions"""
+        e = self.base_lo.resolve(e)
+        if e.get("k") in ("Int", "Float"):
+            try:
+                return float(e.get("text") or e.get("v")) == 0.0
+            except (TypeError, ValueError):
+                return False
+        if e.get("k") == "Call" and e.get("callee", "").startswith("FEAT::Math::") and self.h["cname"](e) in ("eps", "huge") and not e.get("a"):
+            return True
+        return False
 
     def dim(self, e, st):
         h = self.h
@@ -157,6 +411,8 @@ class DimFlow:
                 v = self.lo.var.get(e.get("d"))
                 if v is not None and v.get("ref"):
                     return self.read_obj(self.key_of(e), st)
+                if v is not None and v.get("init") is not None and self.lo.writes.get(e["d"], 0) == 0 and self.poly_literal(v["init"]):
+                    return self.sys.fresh(":" + e["n"])       # `const DataType zero(0)`: a named 0 / eps / huge is as polymorphic as the literal
                 key = "l:%s" % e["d"]
                 return self.read_obj(key, st)
             if e.get("dk") == "param":
@@ -195,6 +451,10 @@ class DimFlow:
             raise Unmodelled("binary %s" % op)
         if k == "Cond":
             self.dim(e["c"], st)
+            t = self.cfg_truth(e["c"])
+            if t is not None:
+                return self.dim(e["then"] if t else e["else"], st)      # operand selected by the configuration
+            self.note_opaque(e["c"])
             a, b = self.dim(e["then"], st), self.dim(e["else"], st)
             self.unify(a, b, "branches of ?: in %s" % render(e)[:60])
             return a
@@ -280,6 +540,11 @@ class DimFlow:
             if nm in ("eps", "huge"):
                 return self.sys.fresh(":" + nm)
             if nm in ("make_shared", "shared_ptr"):
+                return {}
+            if nm == "swap" and len(args) == 2:
+                a, b = self.dim(args[0], st), self.dim(args[1], st)
+                self.define(args[0], b, st)
+                self.define(args[1], a, st)
                 return {}
             raise Unmodelled("call %s" % callee)
         if callee.startswith("FEAT::Statistics::") or nm in ("destroy", "name", "get_num_iter", "_plot_iter", "_plot_iter_line", "IterationStats", "stringify", "_print_line",
@@ -390,9 +655,17 @@ class DimFlow:
         sub.unmodelled = self.unmodelled
         sub.evaluated = self.evaluated
         sub.returns = []
+        sub.free_atoms, sub.opaque, sub.enum_fields = self.free_atoms, self.opaque, self.enum_fields
+        args = c.get("a", [])
+        for i, prm in enumerate(callee.params):
+            if i < len(args) and (callee.type(prm["t"]) or "").replace("const ", "").strip() == "bool":
+                t = self.cfg_truth(args[i])
+                if t is not None:
+                    sub.ptruth[prm["d"]] = t       # a configuration test handed down as a flag
+                else:
+                    self.note_opaque(args[i])
         sub.run()
         cfg = callee.cfg
-        args = c.get("a", [])
         trans = {}
         for i, prm in enumerate(callee.params):
             if i >= len(args):
@@ -457,39 +730,133 @@ class DimFlow:
 
     # ---- driver
     def edge_allowed(self, blk, pos):
-        if not self.assume or blk.get("cond") is None or len(blk.get("succ", [])) != 2:
+        """is the pos-th successor edge of blk taken in the assumed configuration?"""
+        succ = blk.get("succ", [])
+        if blk.get("cond") is None:
             return True
+        b = self._bid.get(id(blk))
+        if b in self.flag_out:
+            self.cur_flags = self.flag_out[b]
         c = self.fn.by_id(blk["cond"])
         if c is None:
             return True
-        txt = render(c)
-        for key, val in self.assume.items():
-            if key in txt:
-                truth = val
-                cc = self.h["strip"](c)
-                if cc.get("k") == "Un" and cc.get("op") == "!":
-                    truth = not truth
-                elif cc.get("k") == "Bin" and cc.get("op") == "!=":
-                    truth = not truth
-                elif not (cc.get("k") == "Bin" and cc.get("op") == "=="):
-                    return True
-                return (pos == 0) == truth
-        return True
+        if blk.get("term") == "SwitchStmt":
+            allowed = self.switch_edges(blk, c)
+            return True if allowed is None else (pos in allowed)
+        if len(succ) != 2:
+            return True
+        t = self.cfg_truth(c)
+        if t is None:
+            return True
+        return (pos == 0) == t
+
+    def switch_edges(self, blk, c):
+        """switch on a configuration field: positions of the successor edges possible under the assumption (None: not such a switch)"""
+        key = ("sw", blk.get("cond"))
+        if key in self._truth_cache:
+            return self._truth_cache[key]
+        res = None
+        if self.is_cfg_term(c) and self.base_lo.resolve(c).get("k") == "Member":
+            cfg = self.fn.cfg
+            tc = self.h["term"](self.base_lo, c)
+            cases, default = [], []
+            for pos, s in enumerate(blk.get("succ", [])):
+                if s is None:
+                    continue
+                lab = self.fn.by_id(cfg.blocks[s].get("label")) if cfg.blocks[s].get("label") is not None else None
+                if lab is not None and lab.get("k") == "Case" and lab.get("v") is not None and self.is_cfg_term(lab["v"]):
+                    if self.base_lo.resolve(lab["v"]).get("dk") == "enum":
+                        self.enum_fields[self.base_lo.resolve(c)["n"]] = (self.fn.ntype(self.base_lo.resolve(c)) or "").replace("const ", "").strip()
+                    x, y = sorted([tc, self.h["term"](self.base_lo, lab["v"])])
+                    cases.append((pos, "eq(%s,%s)" % (x, y)))
+                elif lab is not None and lab.get("k") == "Case":
+                    cases = None
+                    break
+                else:
+                    default.append(pos)
+            if cases is not None:
+                hit = [pos for pos, a in cases if self.assume.get(a) is True]
+                if hit:
+                    res = set(hit[:1])
+                else:
+                    res = set(default)
+                    for pos, a in cases:
+                        if a not in self.assume:
+                            self.free_atoms.add(a)
+                            res.add(pos)
+        self._truth_cache[key] = res
+        return res
+
+    def flag_step(self, n, st):
+        """effect of one CFG element on the known values of the re-assigned bool locals"""
+        if not self.flags:
+            return
+        k = n.get("k")
+        if k == "Decl":
+            for v in n.get("vars", []):
+                if v["d"] in self.flags:
+                    st[v["d"]] = self.cfg_truth(v["init"]) if v.get("init") is not None else None
+        elif k == "Assign":
+            l = self.h["strip"](n["lhs"])
+            if l.get("k") == "Ref" and l.get("d") in self.flags:
+                st[l["d"]] = self.cfg_truth(n["rhs"]) if n.get("op") == "=" else None
+        elif is_call(n):
+            for i, a in enumerate(n.get("a", [])):
+                a = self.h["strip"](a)
+                if a.get("k") == "Ref" and a.get("d") in self.flags:
+                    pt = self.fn.type(n["pt"][i]) if i < len(n.get("pt", [])) else "&"
+                    if "&" in pt and "const" not in pt:
+                        st[a["d"]] = None
+
+    def propagate_flags(self):
+        """forward constant propagation of the re-assigned bool locals over the CFG pruned by the assumption
+        (values: True / False / None = not constant).  Returns the set of reachable blocks."""
+        fn, cfg = self.fn, self.fn.cfg
+        self.flags = {d for d, v in self.base_lo.var.items() if not v.get("ref") and self.base_lo.writes.get(d, 0) > 0
+                      and (fn.type(v.get("t")) or "").replace("const ", "").strip() == "bool"}
+        ins = {cfg.entry: {}}
+        outs = {}
+        work = [cfg.entry]
+        n_it = 0
+        while work and n_it < 20000:
+            n_it += 1
+            b = work.pop()
+            st = dict(ins[b])
+            self.cur_flags = st
+            for sid in cfg.blocks[b]["el"]:
+                n = fn.by_id(sid)
+                if n is not None:
+                    self.flag_step(n, st)
+            outs[b] = st
+            blk = cfg.blocks[b]
+            self.flag_out[b] = st
+            for pos, s in enumerate(blk.get("succ", [])):
+                if s is None or not self.edge_allowed(blk, pos):
+                    continue
+                old = ins.get(s)
+                if old is None:
+                    ins[s] = dict(st)
+                    work.append(s)
+                    continue
+                ch = False
+                for d, v in st.items():
+                    if d not in old:
+                        old[d] = v
+                        ch = True
+                    elif old[d] != v and old[d] is not None:
+                        old[d] = None
+                        ch = True
+                if ch:
+                    work.append(s)
+        self.flag_in = ins
+        self.flag_out = outs
+        return set(ins)
 
     def run(self):
         fn, cfg = self.fn, self.fn.cfg
         ins = {}
-        # reachable blocks under the assumption
-        reach, stck = set(), [cfg.entry]
-        while stck:
-            b = stck.pop()
-            if b in reach:
-                continue
-            reach.add(b)
-            blk = cfg.blocks[b]
-            for pos, s in enumerate(blk.get("succ", [])):
-                if s is not None and self.edge_allowed(blk, pos):
-                    stck.append(s)
+        self._bid = {id(blk): b for b, blk in cfg.blocks.items()}
+        reach = self.propagate_flags()           # reachable blocks under the assumption
         order = sorted(reach, reverse=True)      # clang numbers blocks in reverse: entry has the highest id
         self.ins = ins
         for b in order:
@@ -504,10 +871,10 @@ class DimFlow:
                 for x in walk(n):
                     if x is not n and x.get("i") in ids:
                         nested.add(x["i"])
+            self.cur_flags = dict(self.flag_in.get(b, {}))
             for n in els:
-                if n["i"] in nested:
-                    continue
-                if n["i"] in self.skip:
+                if n["i"] in nested or n["i"] in self.skip:
+                    self.flag_step(n, self.cur_flags)
                     continue
                 self.evaluated.append(n)
                 self.cur_stmt = n
@@ -517,6 +884,17 @@ class DimFlow:
                     self.unmodelled.append("line %s: %s" % (n.get("l"), u))
                 except KeyError as u:
                     self.unmodelled.append("line %s: missing role %s in %s" % (n.get("l"), u, render(n)[:50]))
+                self.flag_step(n, self.cur_flags)
+            if blk.get("cond") is not None and len([x for x in blk.get("succ", []) if x is not None and x in reach]) >= 2:
+                c = fn.by_id(blk["cond"])
+                if c is not None:
+                    if blk.get("term") == "SwitchStmt":
+                        if self.switch_edges(blk, c) is None and not any(is_call(x) for x in walk(c)) and "Status" not in (fn.ntype(self.h["strip"](c)) or ""):
+                            what = "switch(%s)" % render(c)[:40]
+                            if what not in self.opaque:
+                                self.opaque.append(what)
+                    else:
+                        self.note_opaque(c)
             if blk.get("cond") is not None and len(blk.get("succ", [])) == 2:
                 c = fn.by_id(blk["cond"])
                 if c is not None and not any(x.get("i") in ids for x in walk(c)):
